@@ -177,6 +177,25 @@ fn ts_index_ms(w: &World, ms: i128, cur_start: SystemTime) -> Tok {
     -7
 }
 
+/// the array type whose elements have the scalar type of `dt` (arrays map to themselves)
+fn array_type_of(dt: &DataType) -> DataType {
+    match dt {
+        DataType::String => DataType::StringArray,
+        DataType::Bool => DataType::BoolArray,
+        DataType::Int8 => DataType::Int8Array,
+        DataType::Int16 => DataType::Int16Array,
+        DataType::Int32 => DataType::Int32Array,
+        DataType::Int64 => DataType::Int64Array,
+        DataType::Uint8 => DataType::Uint8Array,
+        DataType::Uint16 => DataType::Uint16Array,
+        DataType::Uint32 => DataType::Uint32Array,
+        DataType::Uint64 => DataType::Uint64Array,
+        DataType::Float => DataType::FloatArray,
+        DataType::Double => DataType::DoubleArray,
+        other => other.clone(),
+    }
+}
+
 /// the typed value a VISS value text denotes for a signal of the given type (the client's reading)
 fn typed(dt: &DataType, v: &serde_json::Value) -> Option<DataValue> {
     if v.is_null() {
@@ -387,6 +406,95 @@ pub async fn step_viss(w: &mut World, op: Tok, c: &mut Cur<'_>, start: SystemTim
                     lines
                 }
                 _ => bad.clone(),
+            }
+        }
+        56 => {
+            // VMETA path: get with the static-metadata filter (no token needed); the tree is flattened again
+            let Some(path) = c.string() else {
+                w.viss = Some(conn);
+                return bad;
+            };
+            let body = serde_json::json!({"action": "get", "path": path, "filter": {"type": "static-metadata"}});
+            match conn.request(body).await {
+                None => vec![vec![-88]],
+                Some(v) => {
+                    if let Some(e) = err_line(&v) {
+                        vec![e]
+                    } else {
+                        let prefix = match path.rfind('.') {
+                            Some(i) => path[..=i].to_string(),
+                            None => String::new(),
+                        };
+                        let mut leaves: Vec<(String, serde_json::Value)> = Vec::new();
+                        fn walk(m: &serde_json::Map<String, serde_json::Value>, at: &str, out: &mut Vec<(String, serde_json::Value)>) {
+                            for (k, node) in m {
+                                let name = format!("{}{}", at, k);
+                                if node.get("type").and_then(|t| t.as_str()) == Some("branch") {
+                                    if let Some(ch) = node.get("children").and_then(|c| c.as_object()) {
+                                        walk(ch, &format!("{}.", name), out);
+                                    }
+                                } else {
+                                    out.push((name, node.clone()));
+                                }
+                            }
+                        }
+                        match v.get("metadata").and_then(|m| m.as_object()) {
+                            None => vec![vec![-5]],
+                            Some(m) => {
+                                walk(m, &prefix, &mut leaves);
+                                let all = crate::util::all();
+                                let mut rows: Vec<Vec<Tok>> = Vec::new();
+                                let mut unreadable = false;
+                                for (full, node) in leaves {
+                                    let acc = w.broker.authorized_access(&all);
+                                    let Some(id) = acc.get_id_by_path(&full).await else {
+                                        rows.push(vec![205, -1]);
+                                        continue;
+                                    };
+                                    let et = match node.get("type").and_then(|t| t.as_str()) {
+                                        Some("attribute") => 1,
+                                        Some("sensor") => 2,
+                                        Some("actuator") => 3,
+                                        _ => -1,
+                                    };
+                                    // "int8[]" -> DATA_TYPE_INT8_ARRAY: the numbering of kuksa.val.v1
+                                    let dt = node
+                                        .get("datatype")
+                                        .and_then(|t| t.as_str())
+                                        .map(|t| format!("DATA_TYPE_{}", t.to_uppercase().replace("[]", "_ARRAY")))
+                                        .and_then(|n| databroker_proto::kuksa::val::v1::DataType::from_str_name(&n))
+                                        .map(|d| d as Tok)
+                                        .unwrap_or(-1);
+                                    let mut o = vec![205, id as Tok, et, dt];
+                                    match node.get("allowed") {
+                                        None => o.push(0),
+                                        Some(a) => {
+                                            // the allowed list is an array of the signal's scalar type
+                                            let real = acc.get_metadata(id).await.map(|m| m.data_type.clone());
+                                            let arr_t = real.as_ref().map(array_type_of);
+                                            match arr_t.and_then(|t| typed(&t, a)) {
+                                                Some(val) => {
+                                                    o.push(1);
+                                                    enc_value(&val, &mut o);
+                                                }
+                                                None => unreadable = true,
+                                            }
+                                        }
+                                    }
+                                    rows.push(o);
+                                }
+                                if unreadable {
+                                    vec![vec![-5]]
+                                } else {
+                                    rows.sort_by_key(|r| r[1]);
+                                    let mut out = vec![vec![0, rows.len() as Tok]];
+                                    out.extend(rows);
+                                    out
+                                }
+                            }
+                        }
+                    }
+                }
             }
         }
         55 => {
